@@ -268,3 +268,70 @@ def run(c, chk):
     sub.done('unresolvable paths')
     # R10.7: a call of the wrong type can only be refused where the type is tested
     c09.typed_members(c, chk, 'R10.7')
+    index_bound(c, chk)
+
+
+def index_bound(c, chk):
+    """R10.8: "removing one that does not exist" is refused: cfg_opt_rmnsec() goes on to change the option only on paths that
+    have shown index < number of sections.  A bound written as index <= count - 1 is the same only if the count was shown
+    not to be zero (unsigned wrap-around: with no section at all nothing would be refused)"""
+    chk.rule('R10.8', 'cfg_opt_rmnsec() touches the option only after index < number of sections was established (no unsigned wrap for an empty option)')
+    fn = c.need('cfg_opt_rmnsec')
+    ex = sym.Explorer(c.modules, max_visits=2, mod_sets=c.mod_sets, max_paths=50000)
+    n = 0
+    bad = None
+
+    def is_count(v):
+        return (v[0] == 'call' and v[1] == 'cfg_opt_size') or (v[0] == 'ld' and v[1][0] == 'fld' and v[1][3] == 'nvalues')
+
+    for p in ex.explore(fn):
+        eff = [e for e in p.events if (e.kind == 'call' and not e.inlined and e.name in ('cfg_opt_getval', 'memmove', 'llvm.memmove.p0i8.p0i8.i64', 'cfg_free', 'free', 'realloc'))
+               or (e.kind == 'store' and e.field in ('nvalues', 'values', 'flags') and sym.object_of(e.addr)[0] != 'alloca')]
+        if not eff:
+            continue
+        n += 1
+        idx = ('p', 'index')
+        okb = False
+        nonzero = set()
+        for cn, t, _ in p.assume[:eff[0].seq]:
+            if cn[0] != 'icmp':
+                continue
+            a, b = cn[2], cn[3]
+            # count != 0 / count > 0
+            for x, y in ((a, b), (b, a)):
+                if is_count(x) and y == sym.C0 and ((cn[1] == 'ne' and t) or (cn[1] == 'eq' and not t) or (cn[1] == 'ugt' and x is a and t) or (cn[1] == 'ule' and x is a and not t)):
+                    nonzero.add(x)
+        for cn, t, _ in p.assume[:eff[0].seq]:
+            if cn[0] != 'icmp':
+                continue
+            a, b = cn[2], cn[3]
+            lt = None            # (the value index is shown to be below, inclusive?)
+            if a == idx:
+                if (cn[1] == 'ult' and t) or (cn[1] == 'uge' and not t):
+                    lt = (b, False)
+                if (cn[1] == 'ule' and t) or (cn[1] == 'ugt' and not t):
+                    lt = (b, True)
+            if b == idx:
+                if (cn[1] == 'ugt' and t) or (cn[1] == 'ule' and not t):
+                    lt = (a, False)
+                if (cn[1] == 'uge' and t) or (cn[1] == 'ult' and not t):
+                    lt = (a, True)
+            if lt is None:
+                continue
+            bound, incl = lt
+            if not incl and is_count(bound):
+                okb = True
+            if incl and bound[0] == 'bin' and bound[1] == 'add' and bound[3] == ('c', -1) and is_count(bound[2]) and bound[2] in nonzero:
+                okb = True
+            if incl and bound[0] == 'bin' and bound[1] == 'sub' and bound[3] == ('c', 1) and is_count(bound[2]) and bound[2] in nonzero:
+                okb = True
+        if not okb:
+            bad = bad or (p, eff[0])
+    if bad is not None:
+        p, e = bad
+        chk.fail('R10.8', 'rmnsec-index-bound', c.where(e.ins), 'cfg_opt_rmnsec() reaches %s without having shown index < number of sections (%s): for an option that holds no '
+                 'section the bound "count - 1" wraps around and every index is accepted - a slot is appended and a huge block moved instead of the call being refused'
+                 % (e.name + '()' if e.kind == 'call' else 'a store', fp.cond_text(p, 4)))
+    elif n:
+        chk.ok('R10.8', 'cfg_opt_rmnsec: %d paths with an effect' % n, 'each has index < count', sample=True)
+    chk.floor('R10.8 effect paths of cfg_opt_rmnsec', n, 1)
